@@ -267,6 +267,7 @@ func (w *World) opAdd(p *podState, op Op) {
 		defer cancel()
 		req := &rpc.AllocIPRequest{K8SPodName: p.spec.Name, K8SPodNamespace: ns, K8SPodInfraContainerId: cid(p, sb), Netns: "/proc/1/ns/net", IfName: "eth0"}
 		heldBefore, recV4, recV6 := p.held && p.recCID != "", p.recV4, p.recV6
+		uidAtInvoke := p.uid
 		invokeSeq := w.run.S.SeqNo()
 		w.run.S.Log("cni", "ADD invoke %s cid=%s", p.spec.Name, req.K8SPodInfraContainerId)
 		busy := p.inflight > 0
@@ -306,6 +307,7 @@ func (w *World) opAdd(p *podState, op Op) {
 				"pod %s held %s/%s and a repeated ADD returned %s/%s", p.spec.Name, recV4, recV6, v4, v6)
 		}
 		p.recCID, p.recV4, p.recV6 = req.K8SPodInfraContainerId, v4, v6
+		p.recUID = uidAtInvoke
 		p.poolIntact = true
 		w.checkNetConf(p, reply)
 		w.checkProvenance(p, v4, v6, mac, invokeSeq, recV4, recV6)
@@ -376,11 +378,13 @@ func replyIPs(reply *rpc.AllocIPReply) (v4, v6, mac string) {
 func (w *World) releaseIP(p *podState, sb int, what string) {
 	req := &rpc.ReleaseIPRequest{K8SPodName: p.spec.Name, K8SPodNamespace: ns, K8SPodInfraContainerId: cid(p, sb)}
 	stale := p.recCID != "" && req.K8SPodInfraContainerId != p.recCID
+	// counted first: reading the view below is a scheduling point, another request for the pod
+	// may take effect meanwhile and must not be charged to this one
+	opsBefore := p.effOps
 	var before *podView
 	if stale && p.exists && p.inflight == 0 {
 		before = w.viewPod(p)
 	}
-	opsBefore := p.effOps
 	w.run.S.Log("cni", "%s invoke %s cid=%s", what, p.spec.Name, req.K8SPodInfraContainerId)
 	busy := p.inflight > 0
 	p.inflight++
